@@ -440,7 +440,12 @@ PROPS["C13"] = {
              "LOCK/UNLOCK with a value frame whose length field is the bytes present plus d, d in -2..P+3, at every stage (current, unlock, "
              "timeout, expried) with the follow-up that makes the stage fire; 15% as the last sub-frame of a PIPELINE. Classes count 'one "
              "connection drives a per-connection pool to or beyond its capacity (n >= 64)' and 'EXECUTE frame with a property block whose "
-             "nested length overstates the bytes present by 1..P+2'."),
+             "nested length overstates the bytes present by 1..P+2'. "
+             "Cases carry their instance configuration aof_queue_size in {1024, 2048, 4096, 65536}. Shape 'fanout' (5%): one LOCK frame whose value frame is a PIPELINE of N "
+             "sub-frames, N = C + {-1, 0, 1, 2, 16, C+1, -C/2} with C = aof_queue_size/64 (the length of the shard executor's task free list, the AOF channel free list and the "
+             "AOF lock-queue nodes); sub-frames are EXECUTE (stage current / unlock / expried, nested LOCK/UNLOCK on the outer key or on N keys) or PUSH; follow-up holder UNLOCK, "
+             "optionally the same frame again. Pool shape: holds optionally with expiry flag 0x0100 (immediate AOF), queued requests optionally with Timeout 20 ms and time-out "
+             "flag 0x0480 (reverse key lock through the executor). Class: 'one frame fans out into more commands than the shard executor's free list holds (n > aof_queue_size/64)'."),
     "assumptions": [
         "domain filter (counted): SHUTDOWN, FLUSHALL, (BG)REWRITEAOF never; FLUSHDB, CONFIG, CLIENT, SLAVEOF, REPLSET only as "
         "variants that cannot take effect on a stand-alone leader, and only on unmutated connections; mutated / raw / fuzz "
@@ -490,9 +495,13 @@ PROPS["C18"] = {
              "holds on private keys (completed at drawn later points by the blocker's UNLOCK, or by TIMEOUT) and short-lived holds, "
              "interleaved with clock ticks and with SLock.checkServerProtocolSession() (the 120 s proxy trim) run by the harness; a burst "
              "lets one connection adopt the proxies of all its predecessors. The connection owed a late reply is the live connection "
-             "that announced the id most recently according to the harness's own record, not slock.clients."),
+             "that announced the id most recently according to the harness's own record, not slock.clients. "
+             "LOCK requests of connections without a client id carry the keep-alive time-out flag in 16-32% of the cases with Timeout > 0; a request that was "
+             "queued when its id-less connection was closed keeps the deadline it had then and ends by it, also when the server closed the stream while the text "
+             "handler was still waiting (checked after every clock second); the drain lets 10 s pass before it unlocks anything."),
     "assumptions": [
         "the session check is invoked directly while every handler is parked (its wall-clock timer is not part of the virtual clock)",
+        "keep-alive time-outs only on connections that never announce a client id (with proxy adoption by a successor the will-free reference run is no reference); keep-alive expiries are not generated",
         "only DbId 0, flags 0, second-granularity Timeout/Expried, no value operations (the known C13 crash inputs are out of the domain by construction)",
         "a LockId is not re-used for a lock request while a request bearing it is queued on the key (engine A's assumption); will commands use fresh LockIds",
         "a re-entrant request re-states the Expried of the original request: a shortened expiry is honoured one sweep late (wheel slot not moved) - lock-engine territory, not judged here",
@@ -587,7 +596,10 @@ PROPS["C09"] = {
              "About 1 case in 8: a follower in step, then 300..600 leader records while the harness holds that follower's Aof.aofGlock (its log append "
              "falls behind its receiver), quiescence check, mostly followed by a restart of the follower from its own directory; about 1 case in 12: "
              "1..3 value-carrying holds with a 1 s expiry, 2..4 more value records behind them, 3.2 s of wall time, then the follower joins by file "
-             "transfer or is restarted from its own directory (log files read with the expiry filter)."),
+             "transfer or is restarted from its own directory (log files read with the expiry filter). "
+             "The nodes of a case run with aof_file_buffer_size 4096 (half of the cases), 64, 128 or 1024; about 1 case in 6: a follower in step, then "
+             "k file buffers' worth of records (k = 1..4, <= 64 records) arrive while the harness holds its Aof.aofGlock, the connection is cut while they "
+             "are all queued for the log append, the append goes on; reconnect, quiescence check."),
     "assumptions": [
         "apart from the dedicated short-lived holds (1 s, keys 20..22, always followed by a 3.2 s pause before anything is compared) nothing expires "
         "during a case (expiries >= 60 s) and nothing waits (Timeout 0); require-ack is C11's",
